@@ -51,12 +51,17 @@ inductive V
   | cloneOf (v : V)
   | fromBits (off : Nat) (v : V)
   | vecWords (ws : List Nat)
+  | fromArr (byval : Bool) (s : S)
 inductive S
   | val (v : V)
   | sl (f : Seq.RangeForm) (a b : Nat) (s : S)
   | kd (k : Nat) (s : S)
   | lit (id : Nat)
+  | arr (s : S)
 end
+
+/-- lengths for which the harness instantiates hand-built `SeqArray`s -/
+def arrLens : List Nat := [1, 2, 3, 4, 5, 8, 10, 11, 12, 13, 15, 16, 17, 21, 31, 32, 33, 48, 63, 64, 65, 96, 128]
 
 inductive Fail
   | bio (e : Err)
@@ -184,6 +189,11 @@ partial def parseVKw (k : String) : P V := do
     for _ in [0:cnt] do
       ws := ws ++ [← num]
     pure (.fromWords n ws)
+  | "fromarr" =>
+    let kd ← next
+    if kd ≠ "ref" ∧ kd ≠ "val" then throw "fromarr kind"
+    let s ← parseS
+    pure (.fromArr (kd == "val") s)
   | "vecwords" =>
     let cnt ← num
     let mut ws := []
@@ -203,6 +213,7 @@ partial def parseS : P S := do
   | "sl" => let f ← form (← next); let a ← num; let b ← num; let s ← parseS; pure (.sl f a b s)
   | "kd" => let kk ← num; let s ← parseS; pure (.kd kk s)
   | "lit" => pure (.lit (← num))
+  | "arr" => pure (.arr (← parseS))
   | _ => pure (.val (← parseVKw k))
 end
 
@@ -310,6 +321,12 @@ partial def evalV (x : Ctx) : V → R Bits
     match Seq.fromRaw x.c n ws with
     | some r => pure r
     | none => .error .noneVal
+  | .fromArr _ s => do
+    -- `From<&SeqArray>` / `From<SeqArray>` for `Seq`: iterate the array's symbols, convert (identity), collect
+    let bs ← evalS x s
+    if ¬ arrLens.contains (Seq.len x.c bs) then .error .unsup else
+    let ss ← liftRes (Seq.iterSyms x.p x.c bs)
+    pure (Seq.extend x.c [] ss)
   | .vecWords ws =>
     -- `From<Vec<usize>> for Seq<text::Dna>`: the words' bits, whole
     if x.name = "text" then pure (bitsOfWords (ws.map (· % 2^64))) else .error .unsup
@@ -328,6 +345,10 @@ partial def evalS (x : Ctx) : S → R Bits
     if k = 0 ∨ k > 64 then .error .unsup else
     let v ← liftRes (Kmer.tryFrom x.p x.c k .usize bs)
     pure (Kmer.deref x.c k v)
+  | .arr s => do
+    -- a hand-built `SeqArray<A, N, W>` derefs to the first `N * BITS` bits of its words: the same content
+    let bs ← evalS x s
+    if arrLens.contains (Seq.len x.c bs) then pure bs else .error .unsup
   | .lit id =>
     match Misc.lit x.name id with
     | some bs => pure bs
@@ -557,7 +578,8 @@ def kmerQuery (x : Ctx) : Q String := do
       let pr ← qlift next
       let v ← qlift num
       let s ← qlift parseS; let bs ← qr (evalS x s)
-      if pr ≠ "slice" ∧ pr ≠ "refslice" then throw (.badOp "pairing")
+      if pr ≠ "slice" ∧ pr ≠ "refslice" ∧ pr ≠ "arr" ∧ pr ≠ "refarr" then throw (.badOp "pairing")
+      if (pr = "arr" ∨ pr = "refarr") ∧ (Seq.len c bs ≠ k ∨ k * c.width > 64) then throw (.badOp "arr length")
       let r ← qres (Kmer.eqSlice x.p c k st (v % md) bs)
       pure (boolStr r)
     | "serde" => do
@@ -883,6 +905,16 @@ def special (x : Ctx) (q : String) : Option (Q String) :=
     let some dstp := (if target = "iupac" then some Gen.iupac else if target = "text" then some Gen.text else none)
       | throw (.badOp "conv target")
     let bs ← qr (evalS x s)
+    let r ← qres (Standard.convert p x.c (dstp p) (Standard.convTable p target) bs)
+    pure (showS { x with c := dstp p, name := target } r)
+  | "dna", "convarr" => some do
+    let target ← qlift next
+    let _kind ← qlift next
+    let s ← qlift parseS
+    let bs ← qr (evalS x s)
+    if ¬ arrLens.contains (Seq.len x.c bs) then throw .unsup
+    let some dstp := (if target = "iupac" then some Gen.iupac else if target = "text" then some Gen.text else none)
+      | throw (.badOp "conv target")
     let r ← qres (Standard.convert p x.c (dstp p) (Standard.convTable p target) bs)
     pure (showS { x with c := dstp p, name := target } r)
   | "dna", "toamino" => some do
